@@ -6,6 +6,23 @@ use crate::wire::Wire;
 use std::fmt::Debug;
 use structdiff::StructDiff;
 
+#[cfg(feature = "debug_diffs")]
+pub trait DiffShow: Debug {}
+#[cfg(feature = "debug_diffs")]
+impl<T: Debug> DiffShow for T {}
+#[cfg(feature = "debug_diffs")]
+fn show<D: DiffShow>(d: &D) -> Sx {
+    dbg(d)
+}
+#[cfg(not(feature = "debug_diffs"))]
+pub trait DiffShow {}
+#[cfg(not(feature = "debug_diffs"))]
+impl<T> DiffShow for T {}
+#[cfg(not(feature = "debug_diffs"))]
+fn show<D: DiffShow>(_d: &D) -> Sx {
+    a("opaque")
+}
+
 fn res<T: Wire>(r: Option<T>) -> Sx {
     match r {
         Some(v) => v.to_sx(),
@@ -13,17 +30,17 @@ fn res<T: Wire>(r: Option<T>) -> Sx {
     }
 }
 
-pub fn ret_sx<D: Debug>(r: Option<D>) -> Sx {
+pub fn ret_sx<D: DiffShow>(r: Option<D>) -> Sx {
     match r {
         None => a("none"),
-        Some(d) => tag("some", vec![dbg(&vec![d])]),
+        Some(d) => tag("some", vec![show(&vec![d])]),
     }
 }
 
 pub fn run<T>(op: &str, args: &[Sx]) -> Sx
 where
     T: StructDiff + Wire + Clone + PartialEq + Debug,
-    T::Diff: Debug + Clone,
+    T::Diff: DiffShow + Clone,
 {
     match op {
         "pair" => {
@@ -69,8 +86,8 @@ where
             tag(
                 "ok",
                 vec![
-                    tag("diff", vec![dbg(&d)]),
-                    tag("diffref", vec![dbg(&dr)]),
+                    tag("diff", vec![show(&d)]),
+                    tag("diffref", vec![show(&dr)]),
                     tag("apply", vec![res(apply)]),
                     tag("applyref", vec![res(applyref)]),
                     tag("applymut", vec![res(applymut)]),
